@@ -272,6 +272,17 @@ func genE2E(r *common.Rand, thorough bool) *E2ECase {
 				k := common.Pick(r, cand)
 				used[k] = true
 				ops = append(ops, Op{ID: id, Kind: "delete", Man: k})
+				// the same manifest re-pushed (or deleted once more) concurrently: "every multiset
+				// of push/delete operations ... issued concurrently" includes same-manifest overlap
+				if i+1 < n && r.Chance(1, 5) {
+					id++
+					i++
+					kind := "push"
+					if r.Chance(1, 4) {
+						kind = "delete"
+					}
+					ops = append(ops, Op{ID: id, Kind: kind, Man: k})
+				}
 			} else {
 				var k int
 				var re []int
@@ -290,7 +301,16 @@ func genE2E(r *common.Rand, thorough bool) *E2ECase {
 			}
 			id++
 		}
+		cnt := map[int]int{}
 		for _, o := range ops {
+			cnt[o.Man]++
+		}
+		for _, o := range ops {
+			if cnt[o.Man] > 1 {
+				// outcome of a same-manifest race is decided by the schedule: keep it out of later rounds
+				live[o.Man] = false
+				continue
+			}
 			if o.Kind == "push" {
 				live[o.Man] = true
 			} else {
@@ -765,9 +785,48 @@ func checkE2E(c *E2ECase, res *E2EResult) []failure {
 		aborted
 	)
 	status := make([]int, len(c.Mans))
+	raceHit := false
+	// operations on the same manifest issued concurrently (same round): overlap[k] = they all
+	// returned without a plain error; raced[k] = a push and a delete among them
+	overlap := map[int]bool{}
+	raced := map[int]bool{}
+	overlapErr := map[int]bool{}
+	for k := range c.Mans {
+		rd, touched := lastRound[k]
+		if !touched {
+			continue
+		}
+		np, nd := 0, 0
+		for _, o := range c.Rounds[rd] {
+			if o.Man == k {
+				if o.Kind == "push" {
+					np++
+				} else {
+					nd++
+				}
+				if res.Ops[o.ID].Outcome == "err" {
+					overlapErr[k] = true
+				}
+			}
+		}
+		if np+nd > 1 {
+			overlap[k] = true
+			raced[k] = np > 0 && nd > 0
+		}
+	}
 	for k := range c.Mans {
 		o, touched := last[k]
 		switch {
+		case overlap[k]:
+			// ground truth is the registry: the manifest PUT / DELETE exchanges decide liveness
+			switch {
+			case overlapErr[k]:
+				status[k] = uncertain
+			case res.Live[k]:
+				status[k] = in
+			default:
+				status[k] = out
+			}
 		case !touched:
 			if res.Live[k] {
 				status[k] = in
@@ -820,6 +879,7 @@ func checkE2E(c *E2ECase, res *E2EResult) []failure {
 	}
 	for s := 0; s < c.NSubjects; s++ {
 		l := res.Listings[s]
+		raceHit = false
 		if l.Err != "" {
 			add("list-error", "Referrers(subject %d) failed: %s", s, l.Err)
 			continue
@@ -872,13 +932,19 @@ func checkE2E(c *E2ECase, res *E2EResult) []failure {
 				add("stale-entry", "subject %d lists manifest %d whose subject is %d", s, it.Man, m.Subject)
 			}
 			if status[it.Man] == out {
-				add("stale-entry", "subject %d lists manifest %d which is not live", s, it.Man)
+				if raced[it.Man] {
+					raceHit = true
+					add("same-manifest-race", "subject %d lists manifest %d which is not in the registry: Push and Delete of that manifest ran concurrently, both returned without error", s, it.Man)
+				} else {
+					add("stale-entry", "subject %d lists manifest %d which is not live", s, it.Man)
+				}
 			}
 			if status[it.Man] != out && (it.ArtifactType != m.expectedType() || !annEq(it.Ann, m.Ann)) {
 				add("decoration", "subject %d manifest %d listed with artifactType %q annotations %v, expected %q %v", s, it.Man, it.ArtifactType, it.Ann, m.expectedType(), m.Ann)
 			}
 		}
 		hasUncertain := false
+		racedSubject := false
 		for k, m := range c.Mans {
 			if m.Subject != s {
 				continue
@@ -886,7 +952,13 @@ func checkE2E(c *E2ECase, res *E2EResult) []failure {
 			if status[k] == uncertain || status[k] == aborted {
 				hasUncertain = true
 			}
-			if _, ok := got[k]; !ok && status[k] == in {
+			if raced[k] && m.Subject == s {
+				racedSubject = true
+			}
+			if _, ok := got[k]; !ok && status[k] == in && raced[k] {
+				raceHit = true
+				add("same-manifest-race", "subject %d: manifest %d is in the registry but not listed: Push and Delete of that manifest ran concurrently, both returned without error", s, k)
+			} else if _, ok := got[k]; !ok && status[k] == in {
 				add("lost-update", "subject %d: live manifest %d (last op %+v) is not listed; listing %v index %v", s, k, last[k], keysOf(got), res.IndexTagged[s])
 			}
 		}
@@ -929,7 +1001,7 @@ func checkE2E(c *E2ECase, res *E2EResult) []failure {
 			}
 		}
 		// Referrers API registry
-		if !hasUncertain {
+		if !hasUncertain && !(racedSubject && raceHit) {
 			a := res.API[s]
 			am := map[string]Item{}
 			for _, it := range a.Items {
@@ -952,14 +1024,14 @@ func checkE2E(c *E2ECase, res *E2EResult) []failure {
 		for _, o := range ops {
 			r := res.Ops[o.ID]
 			s := c.Mans[o.Man].Subject
-			if r.Outcome != "ok" && failedAny[rd] == 0 {
+			if r.Outcome != "ok" && failedAny[rd] == 0 && !overlap[o.Man] {
 				add("unexpected-error", "op %d (%s manifest %d) returned %s without any injected failure: %s", o.ID, o.Kind, o.Man, r.Outcome, r.Err)
 			}
 			if r.Outcome == "idxdel" {
 				if failedDel[rd][s] == 0 {
 					add("idxdel-unjustified", "op %d returned a referrers-index-delete error but no index deletion of subject %d failed in round %d", o.ID, s, rd)
 				}
-				if last[o.Man].ID == o.ID && status[o.Man] != aborted {
+				if last[o.Man].ID == o.ID && status[o.Man] != aborted && !overlap[o.Man] {
 					inIdx := false
 					for _, k := range res.IndexTagged[s] {
 						if k == o.Man {
